@@ -364,6 +364,22 @@ pub fn run(tier: Tier, seed: u64) -> i32 {
                     subs.push(("position+position_token_account".into(), if empty { "empty_position_of_another_pool_with_its_token" } else { "position_of_another_pool_with_its_token" }.into(), i));
                 }
             }
+            // pair substitution: another config together with ITS authority, while an object of the original
+            // config (pool, tier, extension, badge) stays in the instruction
+            if let Some(ci) = g.ix.slot("whirlpools_config") {
+                let cb = bs.w.configs[bs.cfg_b].key;
+                let bound = ["whirlpool", "adaptive_fee_tier", "fee_tier", "whirlpools_config_extension", "token_badge"].iter().any(|s| g.ix.slot(s).is_some());
+                if bound && g.ix.metas[ci].key != cb {
+                    for a in &g.auth {
+                        if let crate::catalog::AuthKind::Setting { other: Some(o) } = &a.kind {
+                            if g.ix.slot(a.slot).is_some() && g.ix.key(a.slot) != *o {
+                                let i = g.ix.clone().with_key("whirlpools_config", cb).with_key(a.slot, *o);
+                                subs.push((format!("whirlpools_config+{}", a.slot), "another_config_with_its_authority".into(), i));
+                            }
+                        }
+                    }
+                }
+            }
             // two-hop: second leg replaced by the first pool
             if g.ix.name.starts_with("two_hop_swap") {
                 let mut i = g.ix.clone();
